@@ -32,6 +32,8 @@ AfterCancelledStart(B, k) ==
   [B EXCEPT !.bound = @ \cup {B.ports[j] : j \in 1..(IF n > Len(B.ports) THEN Len(B.ports) ELSE n)}]
 AfterStop(B) == [B EXCEPT !.closing = @ \cup B.bound, !.bound = {}, !.running = FALSE]
 AfterCycle(B) == [B EXCEPT !.closing = {}]
+\* beyond the listed statements: an error the OS reports on a socket (ICMP port unreachable, ...) is logged and changes nothing
+AfterNetError(B) == B
 Listening(B) == B.bound
 Bindable(B, p) == ~Busy(B, p)
 
